@@ -160,6 +160,9 @@ type Spec struct {
 	// InnerSID: session id left inside EncodedClientHelloInner (a conforming client leaves it empty;
 	// the server must substitute the outer hello's id whatever it finds there)
 	InnerSID []byte
+	// RetrySeq > 0: Build seals as the hello that follows a HelloRetryRequest (same HPKE context advanced to this
+	// sequence number, empty enc) instead of as a first hello
+	RetrySeq uint64
 }
 
 // Built is a sealed hello.
@@ -212,6 +215,10 @@ func (s Spec) Build() Built {
 	sealer, err := tlsref.NewSealer(s.Key.Cfg, s.Suite, hpkeref.DetKey("eph:"+s.EphLabel), s.Info)
 	if err != nil {
 		panic(err)
+	}
+	if s.RetrySeq > 0 {
+		sealer.Ctx.Seq = s.RetrySeq
+		return s.BuildWith(sealer, false)
 	}
 	return s.BuildWith(sealer, true)
 }
